@@ -195,6 +195,9 @@ class Interp:
                 return self.ev(b)
             if op == '=':
                 v = self.ev(b)
+                hook = self.callbacks.get('<store>')
+                if hook is not None and hook(self, a, v):
+                    return v
                 self.set_atom(path_key(a), v)
                 return v
             if op in ('+=', '-=', '|=', '&='):
@@ -377,6 +380,29 @@ class Interp:
                     continue
                 except BreakLoop:
                     break
+        elif k in ('WhileStmt', 'ForStmt') and self.callbacks.get('<loops>'):
+            # generic loops over modelled iterators / counters (bounded: the scripted inputs are finite)
+            kids = n.get('c', [])
+            if k == 'ForStmt':
+                init, _cv, cond, inc, body = (kids + [None] * 5)[:5]
+            else:
+                init, inc = None, None
+                cond, body = kids[-2], kids[-1]
+            if init is not None:
+                self.stmt(init)
+            for _round in range(200):
+                if cond is not None and not self.ev(cond):
+                    break
+                try:
+                    self.stmt(body)
+                except ContinueLoop:
+                    pass
+                except BreakLoop:
+                    break
+                if inc is not None:
+                    self.ev(inc)
+            else:
+                raise Unsupported('loop does not end within the bound')
         elif k in ('WhileStmt', 'ForStmt', 'DoStmt', 'CXXForRangeStmt'):
             raise Unsupported('loop')
         else:
